@@ -21,9 +21,9 @@ echo "suite-with-change=$suite demo-with=$with demo-without=$without"
 [ "$suite" = ok ] && [ "$with" = fail ] && [ "$without" = pass ] || { echo "NOT A VALID SEED"; exit 3; }
 set +e
 mkdir -p $OUT && cp $SRC/$K.diff $OUT/patch.diff && cp $SRC/${K}_demo_test.go $OUT/demo_test.go && cp $SRC/$K.md $OUT/notes.md
-# with SNAP and WT set, the checks run from a snapshot of /verif ($SNAP, its harness pointing at the worktree $WT)
+# with SNAP and SEED_WT set, the checks run from a snapshot of /verif ($SNAP, its harness pointing at the worktree $SEED_WT)
 # instead of /verif and /repo, so that both stay free (tools/seed_batch.sh prepares the two)
-REPO=${WT:-/repo}; VERIF=${SNAP:-/verif}
+REPO=${SEED_WT:-/repo}; VERIF=${SNAP:-/verif}
 cd $REPO
 if ! git apply $OUT/patch.diff 2>/dev/null; then
   # fix commits made after the sub-agent's worktree was created moved the context: 3-way, keep the rebased diff
